@@ -18,7 +18,7 @@ ROOT = os.path.dirname(os.path.dirname(os.path.abspath(__file__)))
 sys.path.insert(0, ROOT)
 
 from pyvc import extract  # noqa: E402
-from pyvc.solve import Verdict, discharge, solve_one, to_smt2  # noqa: E402
+from pyvc.solve import Verdict, discharge, solve_one, solve_retry, to_smt2  # noqa: E402
 from pyvc.verify import verify_function, verify_many  # noqa: E402
 
 import re
@@ -222,7 +222,7 @@ class PropertyRun:
                     continue
                 self._retries += 1
                 ob = [o for o in ob_by_name[name] if o.path_id == v.path_id][0]
-                v2 = solve_one((ob.name, to_smt2(ob), timeout_ms * 2, ob.inputs, False, ob.kind, ob.path_id, ob.line, False))
+                v2 = solve_retry(ob.name, to_smt2(ob), min(timeout_ms, 10000) * 2, ob.inputs, ob.kind, ob.path_id, ob.line)
                 self.solver_time[v2.backend] = self.solver_time.get(v2.backend, 0.0) + v2.seconds
                 if v2.status != "unsat":
                     still.append((ob, v2))
@@ -231,13 +231,13 @@ class PropertyRun:
                 # again one at a time (nothing else of this check running) with three times the budget, so that a verdict lost to
                 # machine load or to an unlucky solver configuration is not reported as a violation.
                 confirmed = []
-                for ob, v in still[:6]:
-                    v3 = solve_one((ob.name, to_smt2(ob), timeout_ms * 3, ob.inputs, False, ob.kind, ob.path_id, ob.line, True))
+                for ob, v in still[:3]:
+                    v3 = solve_retry(ob.name, to_smt2(ob), min(timeout_ms, 10000) * 3, ob.inputs, ob.kind, ob.path_id, ob.line)
                     self.solver_time[v3.backend] = self.solver_time.get(v3.backend, 0.0) + v3.seconds
                     if v3.status != "unsat":
                         confirmed.append((ob, v3))
                         break
-                if not confirmed and len(still) <= 6:
+                if not confirmed and len(still) <= 3:
                     entry.setdefault("confirmed_on_second_pass", []).append(name)
                     still = []
                 elif confirmed:
